@@ -1219,6 +1219,11 @@ class Client:
             if self.ignore_exc:
                 return {}
             raise
+        except BaseException:
+            # KeyboardInterrupt, SystemExit, gevent.Timeout...: the reply may
+            # still arrive, so this connection must not be used again.
+            self.close()
+            raise
 
     def _store_cmd(
         self,
@@ -1302,7 +1307,9 @@ class Client:
                 else:
                     raise MemcacheUnknownError(line[:32])
             return results
-        except Exception:
+        except BaseException:
+            # Also on KeyboardInterrupt, SystemExit, gevent.Timeout...: the
+            # reply may still arrive, so the connection must not be reused.
             self.close()
             raise
 
@@ -1346,7 +1353,9 @@ class Client:
                 results.append(line)
             return results
 
-        except Exception:
+        except BaseException:
+            # Also on KeyboardInterrupt, SystemExit, gevent.Timeout...: the
+            # reply may still arrive, so the connection must not be reused.
             self.close()
             raise
 
